@@ -57,6 +57,22 @@ impl<'c, 'r, C: ZCol> Visitor<C> for V<'c, 'r> {
                 format!("{} pixels differ, first at {:?} (x, y, translated drawable, shifted original)\ntranslated drawable:\n{}shifted original:\n{}", n, m1.first_diff(&want), m1.ascii(48), want.ascii(48))
             });
         }
+        // ... also where the target is bounded: moving a drawable relative to the target's edges
+        // (box edges coinciding with / cutting through the moved drawable, only its first row and
+        // column visible) leaves exactly the visible part of the shifted map, and the same return value
+        if let Some(boxes) = egmon::target::cut_boxes(&want) {
+            let bx = boxes[(want.hash() / 11 % 5) as usize];
+            let mut tb = IterTarget::<C>::new(bx);
+            tb.log.budget = budget;
+            let rb = xt.draw_on(&mut tb).ok().flatten();
+            let want_in = egmon::target::restrict(&want, &bx);
+            if !tb.log.map.same(&want_in) || rb != r1 {
+                ctx.violation(format!("{}|{}|translated-rendering-differs-on-bounded-target", kind, thick(desc)), || format!("{} on target box {:?}", case(), egmon::target::rt(&bx)), || {
+                    format!("first difference {:?} (x, y, drawn on the bounded target, shifted original inside the box); returned {:?} vs {:?}", tb.log.map.first_diff(&want_in), rb, r1)
+                });
+            }
+            ctx.count("bounded_target_draws", 1);
+        }
         // text: next position shifts as well
         if let (Some(a), Some(b)) = (r0, r1) {
             if b != a + d {
